@@ -1,6 +1,7 @@
 package props
 
 import (
+	"bytes"
 	"context"
 	"errors"
 	"sync"
@@ -29,6 +30,17 @@ type c01bStep struct {
 	// Concurrent: single-row operations issued by as many goroutines at the same instant
 	// (regions first touched concurrently, in whatever order the scheduler gives)
 	Concurrent []opSpec `json:"concurrent,omitempty"`
+	// Relayout: before this step's operations (nothing of the workload in flight) the layout of the
+	// table changes: the client's cached locations for the affected range are stale from here on
+	Relayout *c01bRelayout `json:"relayout,omitempty"`
+}
+
+type c01bRelayout struct {
+	Kind    string `json:"kind"`   // split | merge | move
+	Region  int    `json:"region"` // index (modulo) into the table's regions in key order
+	At      evid.B `json:"at"`     // split: the split key is the region's start key followed by these bytes
+	Server  int    `json:"server"`
+	Server2 int    `json:"server2"`
 }
 
 type c01bCase struct {
@@ -71,6 +83,12 @@ func c01bRunInBubble(c c01bCase) (out Outcome) {
 		cl.AddTable(tb.Name, bounds, append(addrs[i%len(addrs):], addrs[:i%len(addrs)]...), uint64(1000+100*i), tb.MD5)
 		exists[tb.Name] = true
 	}
+	for _, st := range c.Steps {
+		if st.Relayout != nil {
+			// (refusals take a round trip: a client that never stops asking the wrong place runs into its deadline)
+			cl.MinLatency = 50 * time.Millisecond
+		}
+	}
 	opts := []gohbase.Option{gohbase.RpcQueueSize(c.Queue), gohbase.FlushInterval(time.Duration(c.FlushMS) * time.Millisecond)}
 	if c.Snappy {
 		opts = append(opts, gohbase.CompressionCodec("snappy"))
@@ -91,7 +109,87 @@ func c01bRunInBubble(c c01bCase) (out Outcome) {
 			multiRegion = true
 		}
 	}
+	// stale: (region name @ server) pairs that were right once and are not any more; a request may arrive
+	// at such a place once (the cache cannot know), after that it has to go where the layout says
+	stale := map[string]bool{}
+	staleArrivals := map[string]int{}
+	seenExecs := 0
+	relayouts, staleTouched := 0, 0
+	checkExecs := func() *Outcome {
+		execs, _, problems := cl.Snapshot()
+		if len(problems) > 0 {
+			o := viol("misrouted", "the simulated servers saw misrouted or malformed requests: %v", problems)
+			return &o
+		}
+		for _, e := range execs[seenExecs:] {
+			if e.Marker == "" {
+				continue
+			}
+			if !e.Executed {
+				// anything answered NotServing / WrongRegion was sent to the wrong place: only a location
+				// that has been right before the layout changed may be tried, and only once per request
+				if !stale[e.Region+"@"+e.Addr] {
+					o := viol("misrouted", "request %s for row %q arrived at %s naming region %q and was answered %s (that region was never there)", e.Marker, e.Row, e.Addr, e.Region, e.Result)
+					return &o
+				}
+				staleArrivals[e.Marker]++
+				// (how quickly a client must get over a stale location the statement does not say - the pinned
+				// code needs two refusals when the request was already waiting for the old region - only that
+				// it does: more than 3 arrivals at places that are not right any more is a request going round in circles)
+				if staleArrivals[e.Marker] > 3 {
+					o := viol("stale-location-reused", "request %s for row %q arrived at %s naming region %q (a location that stopped being right %d layout change(s) ago) for the %d. time: after a refusal the request has to be addressed to the region that owns the row now (%v)",
+						e.Marker, e.Row, e.Addr, e.Region, relayouts, staleArrivals[e.Marker], cl.Owner(tableOfRegion(e.Region), e.Row))
+					return &o
+				}
+				continue
+			}
+			owner := cl.Owner(tableOfRegion(e.Region), e.Row)
+			if owner == nil || string(owner.Name) != e.Region || owner.Addr != e.Addr {
+				o := viol("misrouted", "request %s for row %q was executed under region %q on %s, the owner is %v", e.Marker, e.Row, e.Region, e.Addr, owner)
+				return &o
+			}
+		}
+		seenExecs = len(execs)
+		return nil
+	}
 	for si, st := range c.Steps {
+		if rl := st.Relayout; rl != nil && exists[st.Table] {
+			regs := cl.TableRegions(st.Table)
+			id := uint64(5000 + 10*si)
+			retire := func(r *sim.Region) {
+				stale[string(r.Name)+"@"+r.Addr] = true
+				if touched[string(r.Name)] {
+					staleTouched++
+				}
+			}
+			switch rl.Kind {
+			case "move":
+				r := regs[rl.Region%len(regs)]
+				if to := addrs[rl.Server%len(addrs)]; to != r.Addr {
+					retire(r)
+					delete(stale, string(r.Name)+"@"+to)
+					delete(touched, string(r.Name))
+					cl.Move(r, to)
+					relayouts++
+				}
+			case "split":
+				r := regs[rl.Region%len(regs)]
+				at := append(append([]byte{}, r.Start...), rl.At...)
+				if len(rl.At) > 0 && (len(r.Stop) == 0 || bytes.Compare(at, r.Stop) < 0) {
+					retire(r)
+					cl.Split(r, at, id, addrs[rl.Server%len(addrs)], addrs[rl.Server2%len(addrs)])
+					relayouts++
+				}
+			case "merge":
+				if len(regs) >= 2 {
+					i := rl.Region % (len(regs) - 1)
+					retire(regs[i])
+					retire(regs[i+1])
+					cl.Merge(regs[i], regs[i+1], id, addrs[rl.Server%len(addrs)])
+					relayouts++
+				}
+			}
+		}
 		ops := st.Batch
 		if st.Op != nil {
 			ops = []opSpec{*st.Op}
@@ -116,72 +214,87 @@ func c01bRunInBubble(c c01bCase) (out Outcome) {
 		meta0 := cl.MetaScans
 		cl.Unlock()
 		ctx := context.Background()
-		if st.Op != nil {
-			err, cerr := doOp(client, ctx, st.Table, *st.Op)
-			if !exists[st.Table] {
-				if !errors.Is(err, gohbase.TableNotFound) {
-					return viol("unknown-table", "step %d: %s on table %q (which does not exist; its neighbours do) returned %v, expected TableNotFound", si, st.Op.Kind, st.Table, err)
-				}
-				unknownLookups++
-			} else if err != nil {
-				return viol("request-failed", "step %d: %s row %q on %q: %v", si, st.Op.Kind, st.Op.Key, st.Table, err)
-			} else if cerr != nil {
-				return viol("foreign-response", "step %d: %v", si, cerr)
-			}
-		} else if len(st.Concurrent) > 0 {
-			concurrentSteps++
-			errs := make([]error, len(st.Concurrent))
-			cerrs := make([]error, len(st.Concurrent))
-			var wg sync.WaitGroup
-			start := make(chan struct{})
-			for i, op := range st.Concurrent {
-				wg.Add(1)
-				go func(i int, op opSpec) {
-					defer wg.Done()
-					<-start
-					errs[i], cerrs[i] = doOp(client, ctx, st.Table, op)
-				}(i, op)
-			}
-			close(start)
-			wg.Wait()
-			for i, op := range st.Concurrent {
+		if relayouts > 0 {
+			// (a request that is never addressed correctly again must end the case, not hang it)
+			var cancel context.CancelFunc
+			ctx, cancel = context.WithTimeout(ctx, 3*time.Minute)
+			defer cancel()
+		}
+		stepViol := func() *Outcome {
+			if st.Op != nil {
+				err, cerr := doOp(client, ctx, st.Table, *st.Op)
 				if !exists[st.Table] {
-					if !errors.Is(errs[i], gohbase.TableNotFound) {
-						return viol("unknown-table", "step %d: concurrent %s on missing table %q returned %v", si, op.Kind, st.Table, errs[i])
+					if !errors.Is(err, gohbase.TableNotFound) {
+						return violp("unknown-table", "step %d: %s on table %q (which does not exist; its neighbours do) returned %v, expected TableNotFound", si, st.Op.Kind, st.Table, err)
 					}
-					continue
+					unknownLookups++
+				} else if err != nil {
+					return violp("request-failed", "step %d: %s row %q on %q: %v", si, st.Op.Kind, st.Op.Key, st.Table, err)
+				} else if cerr != nil {
+					return violp("foreign-response", "step %d: %v", si, cerr)
 				}
-				if errs[i] != nil {
-					return viol("request-failed", "step %d: concurrent %s row %q on %q: %v", si, op.Kind, op.Key, st.Table, errs[i])
+			} else if len(st.Concurrent) > 0 {
+				concurrentSteps++
+				errs := make([]error, len(st.Concurrent))
+				cerrs := make([]error, len(st.Concurrent))
+				var wg sync.WaitGroup
+				start := make(chan struct{})
+				for i, op := range st.Concurrent {
+					wg.Add(1)
+					go func(i int, op opSpec) {
+						defer wg.Done()
+						<-start
+						errs[i], cerrs[i] = doOp(client, ctx, st.Table, op)
+					}(i, op)
 				}
-				if cerrs[i] != nil {
-					return viol("foreign-response", "step %d: %v", si, cerrs[i])
-				}
-			}
-		} else {
-			var calls []hrpc.Call
-			for _, op := range st.Batch {
-				call, err := buildCall(ctx, st.Table, op)
-				if err != nil {
-					return viol("harness", "buildCall: %v", err)
-				}
-				calls = append(calls, call)
-			}
-			rs, _ := client.SendBatch(ctx, calls)
-			for i, op := range st.Batch {
-				if !exists[st.Table] {
-					if rs[i].Error == nil {
-						return viol("unknown-table", "step %d: batch call on missing table %q succeeded", si, st.Table)
+				close(start)
+				wg.Wait()
+				for i, op := range st.Concurrent {
+					if !exists[st.Table] {
+						if !errors.Is(errs[i], gohbase.TableNotFound) {
+							return violp("unknown-table", "step %d: concurrent %s on missing table %q returned %v", si, op.Kind, st.Table, errs[i])
+						}
+						continue
 					}
-					continue
+					if errs[i] != nil {
+						return violp("request-failed", "step %d: concurrent %s row %q on %q: %v", si, op.Kind, op.Key, st.Table, errs[i])
+					}
+					if cerrs[i] != nil {
+						return violp("foreign-response", "step %d: %v", si, cerrs[i])
+					}
 				}
-				if rs[i].Error != nil {
-					return viol("request-failed", "step %d: batch call %d (%s row %q): %v", si, i, op.Kind, op.Key, rs[i].Error)
+			} else {
+				var calls []hrpc.Call
+				for _, op := range st.Batch {
+					call, err := buildCall(ctx, st.Table, op)
+					if err != nil {
+						return violp("harness", "buildCall: %v", err)
+					}
+					calls = append(calls, call)
 				}
-				if err := checkOpResult(op, rs[i].Msg); err != nil {
-					return viol("foreign-response", "step %d: batch call %d: %v", si, i, err)
+				rs, _ := client.SendBatch(ctx, calls)
+				for i, op := range st.Batch {
+					if !exists[st.Table] {
+						if rs[i].Error == nil {
+							return violp("unknown-table", "step %d: batch call on missing table %q succeeded", si, st.Table)
+						}
+						continue
+					}
+					if rs[i].Error != nil {
+						return violp("request-failed", "step %d: batch call %d (%s row %q): %v", si, i, op.Kind, op.Key, rs[i].Error)
+					}
+					if err := checkOpResult(op, rs[i].Msg); err != nil {
+						return violp("foreign-response", "step %d: batch call %d: %v", si, i, err)
+					}
 				}
 			}
+			return nil
+		}()
+		if o := checkExecs(); o != nil {
+			return *o
+		}
+		if stepViol != nil {
+			return *stepViol
 		}
 		cl.Lock()
 		meta1 := cl.MetaScans
@@ -189,7 +302,13 @@ func c01bRunInBubble(c c01bCase) (out Outcome) {
 		if exists[st.Table] {
 			// static layout, sequential steps: exactly one meta lookup per region first touched,
 			// none for keys inside known regions
-			if got, want := meta1-meta0, len(newRegions); got != want && len(st.Concurrent) == 0 {
+			if got, want := meta1-meta0, len(newRegions); relayouts > 0 {
+				// locations that went stale cost one lookup each when they are found out (and that lookup may
+				// bring a region the step did not ask for into the cache): an upper bound is what remains
+				if got > want+staleTouched && len(st.Concurrent) == 0 {
+					return viol("meta-lookups", "step %d on %q: %d meta lookup(s) for %d region(s) touched for the first time and %d cached location(s) invalidated so far", si, st.Table, got, want, staleTouched)
+				}
+			} else if got != want && len(st.Concurrent) == 0 {
 				return viol("meta-lookups", "step %d on %q: %d meta lookup(s), but %d region(s) were touched for the first time (keys inside known regions must come from the cache, others from hbase:meta)", si, st.Table, got, want)
 			}
 		}
@@ -200,22 +319,8 @@ func c01bRunInBubble(c c01bCase) (out Outcome) {
 	if n, err := recheckRetained(); err != nil {
 		return viol("result-changed-later", "%v (%d results retained; snappy=%v)", err, n, c.Snappy)
 	}
-	execs, _, problems := cl.Snapshot()
-	if len(problems) > 0 {
-		return viol("misrouted", "the simulated servers saw misrouted or malformed requests: %v", problems)
-	}
-	for _, e := range execs {
-		if e.Marker == "" {
-			continue
-		}
-		// static layout: any request that did not execute was sent to the wrong place
-		if !e.Executed {
-			return viol("misrouted", "request %s for row %q arrived at %s naming region %q and was answered %s", e.Marker, e.Row, e.Addr, e.Region, e.Result)
-		}
-		owner := cl.Owner(tableOfRegion(e.Region), e.Row)
-		if owner == nil || string(owner.Name) != e.Region || owner.Addr != e.Addr {
-			return viol("misrouted", "request %s for row %q was executed under region %q on %s, the owner is %v", e.Marker, e.Row, e.Region, e.Addr, owner)
-		}
+	if o := checkExecs(); o != nil {
+		return *o
 	}
 	out.NonTrivial = (multiRegion || len(c.Tables) > 1) && boundaryKeys > 0
 	if unknownLookups > 0 {
@@ -224,6 +329,16 @@ func c01bRunInBubble(c c01bCase) (out Outcome) {
 	if concurrentSteps > 0 {
 		out.Labels = append(out.Labels, "concurrent_first_touches")
 	}
+	if relayouts > 0 {
+		out.Labels = append(out.Labels, "layout_changed_under_a_warm_cache")
+	}
+	n := 0
+	for _, k := range staleArrivals {
+		n += k
+	}
+	if n > 0 {
+		out.Labels = append(out.Labels, "stale_location_found_out")
+	}
 	if multiRegion {
 		out.Labels = append(out.Labels, "multi_region")
 	}
@@ -231,6 +346,11 @@ func c01bRunInBubble(c c01bCase) (out Outcome) {
 		out.Labels = append(out.Labels, "sibling_tables")
 	}
 	return out
+}
+
+func violp(sig, format string, a ...any) *Outcome {
+	o := viol(sig, format, a...)
+	return &o
 }
 
 func tableOfRegion(name string) string {
@@ -285,7 +405,9 @@ func c01bGen(t *rapid.T) c01bCase {
 		if rapid.IntRange(0, 4).Draw(t, "conc") == 0 {
 			nb := rapid.IntRange(2, 8).Draw(t, "nconc")
 			for k := 0; k < nb; k++ {
-				st.Concurrent = append(st.Concurrent, genOp(t, l, kinds, &n))
+				op := genOp(t, l, kinds, &n)
+				op.SkipBatch = op.Kind != "cas" && rapid.IntRange(0, 3).Draw(t, "skipbatch") == 0
+				st.Concurrent = append(st.Concurrent, op)
 			}
 		} else if rapid.IntRange(0, 3).Draw(t, "batch") == 0 {
 			nb := rapid.IntRange(1, 8).Draw(t, "nb")
@@ -294,7 +416,13 @@ func c01bGen(t *rapid.T) c01bCase {
 			}
 		} else {
 			op := genOp(t, l, kinds, &n)
+			op.SkipBatch = op.Kind != "cas" && rapid.IntRange(0, 3).Draw(t, "skipbatch") == 0
 			st.Op = &op
+		}
+		if i > 0 && rapid.IntRange(0, 7).Draw(t, "relayout") == 0 {
+			st.Relayout = &c01bRelayout{Kind: rapid.SampledFrom([]string{"split", "split", "merge", "move"}).Draw(t, "rlkind"),
+				Region: rapid.IntRange(0, 7).Draw(t, "rlregion"), At: rapid.SliceOfN(rapid.Byte(), 1, 3).Draw(t, "rlat"),
+				Server: rapid.IntRange(0, 3).Draw(t, "rlserver"), Server2: rapid.IntRange(0, 3).Draw(t, "rlserver2")}
 		}
 		c.Steps = append(c.Steps, st)
 	}
@@ -307,7 +435,10 @@ func TestC01_EndToEnd(t *testing.T) {
 		"rapid, virtual time: 1..4 prefix-related tables (t, t-, t., t0, tt, ns:t, ns:t-, s) with 1..6 regions each on "+
 			"1..4 simulated servers and a sequence of 1..40 operations (get, put, delete, append, increment, "+
 			"check-and-put, SendBatch of 1..8, or 2..8 single operations issued concurrently; table names passed as slices with spare capacity shared by all calls) on keys constructed around the region boundaries, plus operations on a "+
-			"neighbouring table name that does not exist; queue size / flush interval / snappy drawn; the cache starts "+
+			"neighbouring table name that does not exist; single calls optionally un-batched (SkipBatch); between steps the "+
+			"layout may change (split at a drawn key, merge of two neighbours, move to another server) under the warm cache: "+
+			"a request may then arrive once at a location that used to be right, afterwards it must name the owning region at its server; "+
+			"queue size / flush interval / snappy drawn; the cache starts "+
 			"cold and warms up as regions are touched. Oracle at the servers: every request frame and every action of "+
 			"every multi-request names the region that owns its row and arrives at the server hosting it (a static "+
 			"layout: anything answered NotServing / WrongRegion is misrouted); every operation returns the key-derived "+
